@@ -409,7 +409,12 @@ func NewFork(nodable Nodable, index int, id ForkId) *Fork {
 // a bit more than those on the fork ID - they can't use a slash to
 // separate nested fork components, and they can't contain a '.' character
 // as that would break the journal filename parsing scheme.
-var encodeJournalName = strings.NewReplacer(".", "%2E", "/", "%2F")
+//
+// The separator of nested fork components is written with a lower case hex
+// digit: a '/' inside a key has already been escaped as "%2F" (url.PathEscape
+// writes upper case), and the two must not be confused, or the forks
+// (a, "b/fork_c") and ("a/fork_b", c) would share a journal name.
+var encodeJournalName = strings.NewReplacer(".", "%2E", "/", "%2f")
 
 func (self *Fork) updateId(id ForkId) {
 	self.forkId = id
